@@ -126,12 +126,24 @@ def _fresh(rel):
 
 
 def _extract(rel, extra_scope=()):
+    # one extractor per TU at a time across concurrently running checks; late-comers find the result fresh
+    import fcntl
+    out, keyf = _cache_paths(rel)
+    with open(out + '.lock', 'w') as lk:
+        fcntl.flock(lk, fcntl.LOCK_EX)
+        if _fresh(rel):
+            return rel, True, ''
+        return _extract_locked(rel)
+
+
+def _extract_locked(rel):
     flags, d = _flags_for(rel)
     out, keyf = _cache_paths(rel)
     src = os.path.join(REPO, rel)
     comp = 'clang' if rel.endswith('.c') else 'clang++'
+    tmp = '.tmp.%d' % os.getpid()           # checks may run concurrently: never share a partially written file
     cmd = [comp, '-fsyntax-only', '-w', '-fplugin=' + PLUGIN, '-Xclang', '-add-plugin', '-Xclang', 'uscxml-facts',
-           '-Xclang', '-plugin-arg-uscxml-facts', '-Xclang', 'out=' + out + '.tmp']
+           '-Xclang', '-plugin-arg-uscxml-facts', '-Xclang', 'out=' + out + tmp]
     for sc in SCOPES:
         cmd += ['-Xclang', '-plugin-arg-uscxml-facts', '-Xclang', 'scope=' + os.path.join(REPO, sc)]
     cmd += ['-Xclang', '-plugin-arg-uscxml-facts', '-Xclang', 'root=' + REPO + '/']
@@ -139,9 +151,11 @@ def _extract(rel, extra_scope=()):
     if not os.path.isdir(d):
         d = VERIF
     r = subprocess.run(cmd, cwd=d, capture_output=True, text=True)
-    if r.returncode != 0 or not os.path.exists(out + '.tmp'):
+    if r.returncode != 0 or not os.path.exists(out + tmp):
+        if os.path.exists(out + tmp):
+            os.remove(out + tmp)
         return rel, False, (r.stderr or r.stdout)[-1500:]
-    data = json.load(open(out + '.tmp'))
+    data = json.load(open(out + tmp))
     files = {}
     for f in data.get('files', []):
         if f.startswith(REPO + '/'):
@@ -149,8 +163,9 @@ def _extract(rel, extra_scope=()):
             if os.path.exists(f):
                 files[relf] = _sha(f)
     files[rel] = _sha(src)
-    os.replace(out + '.tmp', out)
-    json.dump({'flags': flags, 'plugin': _sha(PLUGIN), 'files': files}, open(keyf, 'w'))
+    os.replace(out + tmp, out)
+    json.dump({'flags': flags, 'plugin': _sha(PLUGIN), 'files': files}, open(keyf + tmp, 'w'))
+    os.replace(keyf + tmp, keyf)
     return rel, True, ''
 
 
@@ -412,22 +427,23 @@ def load_extra(path, like='src/uscxml/util/String.cpp', lang=None):
     path = os.path.abspath(path)
     h = hashlib.sha256(open(path, 'rb').read() + repr(flags).encode() + _sha(PLUGIN).encode()).hexdigest()[:16]
     out = os.path.join(_cache_dir(), 'extra_' + os.path.basename(path) + '_' + h + '.json')
+    tmp = '.tmp.%d' % os.getpid()
     if not os.path.exists(out):
         is_c = (lang == 'c') or path.endswith('.c')
         comp = 'clang' if is_c else 'clang++'
         if is_c:
             flags = [a for a in flags if not a.startswith('-std=')]
         cmd = [comp, '-fsyntax-only', '-w', '-fplugin=' + PLUGIN, '-Xclang', '-add-plugin', '-Xclang', 'uscxml-facts',
-               '-Xclang', '-plugin-arg-uscxml-facts', '-Xclang', 'out=' + out + '.tmp',
+               '-Xclang', '-plugin-arg-uscxml-facts', '-Xclang', 'out=' + out + tmp,
                '-Xclang', '-plugin-arg-uscxml-facts', '-Xclang', 'scope=' + os.path.dirname(path),
                '-Xclang', '-plugin-arg-uscxml-facts', '-Xclang', 'root=' + REPO + '/']
         if is_c:
             cmd += ['-x', 'c']
         cmd += flags + [path]
         r = subprocess.run(cmd, cwd=d if os.path.isdir(d) else VERIF, capture_output=True, text=True)
-        if r.returncode != 0 or not os.path.exists(out + '.tmp'):
+        if r.returncode != 0 or not os.path.exists(out + tmp):
             raise AnalysisBroken('clang could not parse %s:\n%s' % (path, (r.stderr or r.stdout)[-1500:]))
-        os.replace(out + '.tmp', out)
+        os.replace(out + tmp, out)
     fb = FactBase.__new__(FactBase)
     fb.tus = [path]
     fb.extracted, fb.cached = 0, 1
